@@ -4,10 +4,10 @@ package checks
 
 import (
 	"bytes"
-	"reflect"
-	"strings"
 	"context"
 	"fmt"
+	"reflect"
+	"strings"
 	"time"
 
 	astits "github.com/asticode/go-astits"
@@ -97,7 +97,13 @@ var pesFields = []pesField{
 	{"trick", func(h *ref.PESHdr) bool { return h.Trick != nil }, rangeAlpha(256), func(h *ref.PESHdr, v uint64) { h.Trick = ref.TrickFromByte(byte(v)) }},
 	{"copy_info", func(h *ref.PESHdr) bool { return h.CopyInfo != nil }, rangeAlpha(128), func(h *ref.PESHdr, v uint64) { x := uint8(v); h.CopyInfo = &x }},
 	{"crc", func(h *ref.PESHdr) bool { return h.CRC != nil }, rangeAlpha(65536), func(h *ref.PESHdr, v uint64) { x := uint16(v); h.CRC = &x }},
-	{"seq.counter", func(h *ref.PESHdr) bool { return h.Ext != nil && h.Ext.Seq != nil }, bitsAlpha(7), func(h *ref.PESHdr, v uint64) { s := *h.Ext.Seq; s.Counter = uint8(v); e := *h.Ext; e.Seq = &s; h.Ext = &e }},
+	{"seq.counter", func(h *ref.PESHdr) bool { return h.Ext != nil && h.Ext.Seq != nil }, bitsAlpha(7), func(h *ref.PESHdr, v uint64) {
+		s := *h.Ext.Seq
+		s.Counter = uint8(v)
+		e := *h.Ext
+		e.Seq = &s
+		h.Ext = &e
+	}},
 	{"seq.id+stuff", func(h *ref.PESHdr) bool { return h.Ext != nil && h.Ext.Seq != nil }, rangeAlpha(128), func(h *ref.PESHdr, v uint64) {
 		s := *h.Ext.Seq
 		s.MPEG1or2, s.OrigStuff = uint8(v>>6), uint8(v&0x3f)
@@ -447,7 +453,6 @@ func dataOf(d *astits.PESData) []byte {
 	return d.Data
 }
 
-
 func durCheck(c *mc.Ctx, base, ext int64) {
 	got := astits.ClockReference{Base: base, Extension: ext}.Duration()
 	// small values: exact int arithmetic suffices and is fast
@@ -460,7 +465,6 @@ func durCheck(c *mc.Ctx, base, ext int64) {
 		c.Rep.Report("duration", map[string]any{"kind": "duration", "base": base, "extension": ext, "message": fmt.Sprintf("Duration() = %d ns, expected %d or %d", got, sumTrunc, t)})
 	}
 }
-
 
 // diffFields names the model fields in which two headers differ (the locus of a decode error).
 func diffFields(g, w *ref.PESHdr) string {
